@@ -91,6 +91,8 @@ def gen_cases(seed, tier):
             "resp_status": rnd.choice([200, 200, 201, 404, 500, 302]), "sse": sse,
             "resp_chunks": [c.hex() for c in chunked(body_bytes(ps, resp_len))],
             "_req": [rs, req_len], "_resp": [ps, resp_len],
+            # the client offers a protocol upgrade that the target declines (it answers normally): buffered and limited as usual
+            "offer_upgrade": (not sse) and rnd.random() < 0.2,
         })
     # torn-down exchanges behind a real front server (spill file must be gone afterwards)
     for k in range(6 if tier == "quick" else 60):
@@ -161,7 +163,7 @@ def run(tier, seed):
     res = Result("C14", tier, seed)
     work = Work("C14")
     try:
-        ok, blog = coq_build(["props/C14.vo", "props/C14link.vo", "corr/C14corr.vo"])
+        ok, blog = coq_build(["props/C14.vo", "props/C14link.vo", "corr/C14corr.vo", "corr/C14head.vo"])
         proofs_ok, pa = proof_obligations(work, res, "C14.v", ok, blog)
         n1, names1 = res.coverage["obligations"], res.coverage["theorems"]
         d1 = res.coverage["discharged"]
@@ -198,6 +200,16 @@ def run(tier, seed):
                 for s, txt in ex.map(ev, jobs):
                     for (j, a, m) in parse_failures(txt):
                         failing.append((s + j, a, m))
+        # HEAD exchanges: status and declared Content-Length reach the client unchanged (corr/C14head.v)
+        head_idx = [j for j, c in enumerate(cases) if "head_len" in c]
+        head_bad = []
+        if harness_ok and ok and head_idx:
+            def hn(x):
+                return "(Some %d)" % int(x) if (x or "").isdigit() else "None"
+            terms = ["(%d, %d, %d, %s)" % (cases[j]["resp_status"], cases[j]["head_len"], obs[j]["status"], hn(obs[j].get("clen"))) for j in head_idx]
+            txt = coq_eval(work, "Head", "From KP Require Import model.Base corr.C14head.\nLocal Open Scope N_scope.",
+                           "Definition R := Eval vm_compute in c14_head_bad [%s].\n" % "; ".join(terms), "R")
+            head_bad = [head_idx[int(x)] for x in re.findall(r"\d+", txt.replace("%nat", ""))]
         kinds = {}
         for c in cases:
             k = c["kind"] + ("/big" if c["kind"] == "req" and c["maxm"] >= 100 else "")
@@ -224,6 +236,7 @@ def run(tier, seed):
             "head_exchanges": {"cases": len([c for c in cases if "head_len" in c]),
                                "declared_length_above_the_response_limit": len([c for c in cases if "head_len" in c and c["buffer_resp"]
                                                                                 and 0 < c["max_resp"] < c["head_len"]]),
+                               "monitor_failures": len(head_bad),
                                "declared_length_reached_the_client": len([1 for c, o in zip(cases, obs) if "head_len" in c
                                                                           and o.get("clen") == str(c["head_len"])])},
         })
@@ -233,7 +246,11 @@ def run(tier, seed):
         ]
         mon_fail = [f for f in failing if not f[2]]
         disagree = [f for f in failing if f[2] and not f[1]]
-        if mon_fail:
+        if head_bad and not mon_fail:
+            j = head_bad[0]
+            res.violation("head-%d" % j, {"property": "C14", "what": "HEAD exchange: the target's status / declared Content-Length did not reach the client "
+                                                                   "unchanged (corr/C14head.head_ok)", "case": cases[j], "observed": obs[j], "seed": seed, "tier": tier})
+        elif mon_fail:
             j = mon_fail[0][0]
             res.violation("monitor-%d" % j, {"property": "C14", "what": "monitor false on an implementation trace",
                                              "case": cases[j], "observed": obs[j], "seed": seed, "tier": tier})
